@@ -89,7 +89,7 @@ static result stream_decode(ZSTD_DCtx* dc, const unsigned char* f, size_t fn, si
         size_t il = fn - ipos, ol = cap - opos; ZSTD_inBuffer ib; ZSTD_outBuffer ob; unsigned char* isub; unsigned char* osub;
         char cls; int counter;
         switch (mode & 3) {
-            case 0: if (il > 1) il = 1; if (ol > 1 + rnd() % 7) ol = 1 + rnd() % 7; break;            /* byte by byte */
+            case 0: { size_t b = 1 + rnd() % 7; if (il > 1) il = 1; if (ol > b) ol = b; } break;       /* byte by byte */
             case 1: { size_t a = 1 + rnd() % 17, b = 1 + rnd() % 300; if (il > a) il = a; if (ol > b) ol = b; } break;
             case 2: { size_t a = 1 + rnd() % 5000, b = 1 + rnd() % 70000; if (il > a) il = a; if (ol > b) ol = b; } break;
             default: break;                                                                            /* everything at once */
@@ -276,7 +276,9 @@ static void cmd_D(char** t) {
     r = ZSTD_DCtx_loadDictionary(dc, d, dn);
     c.out = out2; c.r = ZSTD_isError(r) ? r : ZSTD_decompressDCtx(dc, out2, cap, f, fn); check_ret(c.r, cap); c.n = ZSTD_isError(c.r) ? 0 : c.r;
     put_status("load", &c, 0); compare("load", &a, &c);
-    if ((a.r == b.r) == 0 && ZSTD_isError(a.r) != ZSTD_isError(b.r) && dd) flag("DICTPATH");
+    /* note: usingDict and usingDDict may legitimately disagree on error-ness: a DDict keeps the whole dictionary buffer
+     * (header + entropy tables + content) as history, the raw path only the content - an offset reaching into the header
+     * part is accepted by the former and rejected by the latter (both stay inside the dictionary buffer) */
     /* compressor side: the same untrusted bytes as a compression dictionary; what it produces must decode with it */
     {   int levels[2] = { 3, 6 }; int li;
         for (li = 0; li < 2; li++) {
